@@ -49,7 +49,7 @@ pub fn gen_factory_cfg(s: &mut Src, min_denoms: usize, max_denoms: usize, allow_
     let native_decimals: Vec<u8> = (0..nd).map(|_| if s.chance(1, 8) { 19 + s.below(237) as u8 } else { s.below(19) as u8 }).collect();
     let unregistered: Vec<usize> = if allow_unregistered { (0..nd).filter(|_| s.chance(1, 6)).collect() } else { vec![] };
     let token_decimals: Vec<u8> = (0..nt).map(|_| s.below(19) as u8).collect();
-    WorldCfg { native_decimals, token_decimals, pairs: vec![], n_actors: 2, n_bystanders: 0, initial_balance: 1 << 60, allowance: 0, denoms, unregistered, staged_decimals: vec![], router_allowance: 0 }
+    WorldCfg { native_decimals, token_decimals, pairs: vec![], n_actors: 2, n_bystanders: 0, initial_balance: 1 << 60, allowance: 0, denoms, unregistered, staged_decimals: vec![], router_allowance: 0, peer_allowance: false }
 }
 
 pub fn key_of(a: &AssetInfo) -> String {
